@@ -301,6 +301,10 @@ class Rule:
 
 class Interp:
     DEAD = []      # paths that ended in a definite NULL dereference (site, rule, function)
+    ALL_FUNCS = set()
+    ALL_MODEL = set()
+    ALL_UNCLASSIFIED = set()
+    RUNS = [0, 0]   # interpreter runs, steps
     def __init__(self, prog, unit, model=None, rule=None, hooks=None, inline=None, no_inline=(), max_depth=12,
                  budget=400000, const_globals=None):
         self.prog = prog
@@ -1099,6 +1103,7 @@ class Interp:
             r = self.model[name](self, st, args, node)
             if r is not None:
                 self.used_model.add(name)
+                Interp.ALL_MODEL.add(name)
                 return r
         target = self.lookup(fv)
         if target is not None and (self.inline is None or name in self.inline) and name not in self.no_inline:
@@ -1110,6 +1115,7 @@ class Interp:
     def call_opaque(self, name, args, st, node):
         if name not in self.model:
             self.unclassified.add(name)
+            Interp.ALL_UNCLASSIFIED.add(name)
         st.trace.append(('call', name, args, node_loc(node)))
         qt = node.get('type', {}).get('qualType', '') if node else ''
         skey = 'call:%s:%s' % (name, loc_str(node))
@@ -1148,6 +1154,7 @@ class Interp:
         params = [c for c in f['inner'] if c['kind'] == 'ParmVarDecl']
         body = [c for c in f['inner'] if c['kind'] == 'CompoundStmt'][0]
         self.funcs_entered.add((self.u.name, name))
+        Interp.ALL_FUNCS.add('%s:%s' % (self.u.name, name))
         for p, a in zip(params, args):
             self.store(st, ('var', self.u.name, p['id'], p.get('name')), '', a)
         st.trace.append(('enter', name, args, node_loc(node) if node else None))
@@ -1938,7 +1945,12 @@ class Interp:
         for a in args:
             if isinstance(a, Ref) and a.loc[0] == 'obj':
                 self.roots.add(a.loc)
-        return self.call_inline((u, f), args, st, None)
+        Interp.RUNS[0] += 1
+        s0 = self.steps
+        try:
+            return self.call_inline((u, f), args, st, None)
+        finally:
+            Interp.RUNS[1] += self.steps - s0
 
 
 # ----------------------------------------------------------------------------------------
